@@ -153,8 +153,8 @@ def gen_params(rng, max_hosts=120, allow_alpha1=False, small_bias=True):
     for k in ("service_scan_cost", "os_scan_cost", "subnet_scan_cost",
               "process_scan_cost"):
         p[k] = rng.choice([1, 1, 1, 2, 0.5, 0, 3])
-    p["r_sensitive"] = rng.choice([10, 100, 100, 1, 2.5, 1000])
-    p["r_user"] = rng.choice([10, 100, 100, 1, 2.5, 1000])
+    p["r_sensitive"] = rng.choice([10, 100, 100, 1, 2.5, 1000, 0.5, 0.1])
+    p["r_user"] = rng.choice([10, 100, 100, 1, 2.5, 1000, 0.5, 0.1])
     p["random_goal"] = rng.random() < 0.4
     p["base_host_value"] = rng.choice([1, 1, 1, 0, -1, 0.5, 5, -10])
     p["host_discovery_value"] = rng.choice([1, 1, 1, 0, -1, 0.5, 3])
